@@ -49,6 +49,8 @@ pub enum Error {
     SocketNotAvailable,
     /// Can't read from socket.
     CantReadFromSocket,
+    /// Peer doesn't take the data written to the socket.
+    SocketWriteTimeout,
     /// Connection reset.
     ConnectionReset,
     /// Connection closed.
@@ -118,6 +120,7 @@ impl fmt::Display for Error {
             Error::KeepAliveTimeout => write!(f, "Keep alive timeout"),
             Error::SocketNotAvailable => write!(f, "Socket not available"),
             Error::CantReadFromSocket => write!(f, "Can't read from socket"),
+            Error::SocketWriteTimeout => write!(f, "Socket write timeout"),
             Error::InfoMissing => write!(f, "Info field missing"),
             Error::ConnectionReset => write!(f, "Connection reset by peer"),
             Error::ConnectionClosed => write!(f, "Connection closed by peer"),
